@@ -94,9 +94,6 @@ Proof.
 Qed.
 
 (* ------------------------------------------------------------------ what one event does to one future *)
-Definition cbflag (c : cbkind) : bool :=
-  match c with CbNone => false | CbUser => true | CbCreate _ u => u end.
-
 Definition apply_c (c : completion) (o : ofut) : ofut :=
   match c with
   | CRes p => let o' := set_ost o (Resolved (ort o) p) in if cbflag (ocb o) then called o' else o'
@@ -157,11 +154,14 @@ Proof. split; cbn; [reflexivity|discriminate|discriminate]. Qed.
 
 (* no future of s was sent with id i *)
 Definition fresh (s : st) (i : id) : Prop := forall k o, nget k (ofuts s) = Some o -> oid o <> i.
+(* no OUTSTANDING request of s has id i *)
+Definition free_id (s : st) (i : id) : Prop :=
+  forall k o, nget k (ofuts s) = Some o -> is_pending (ost o) = true -> oid o <> i.
 
 (* what the hypotheses of the theorem say about one event in the state it meets *)
 Definition ok_ev (s : st) (e : ev) : Prop :=
   match e with
-  | UserSend _ _ _ mid => fresh s (fst (send_id mid (next s)))
+  | UserSend _ _ _ mid => free_id s (fst (send_id mid (next s)))
   | RecvResult i _ oks => forall k o, nget k (ofuts s) = Some o -> is_pending (ost o) = true ->
                           oid o = i -> mem_n (ort o) oks = true
   | RecvError _ c _ _ => int32 c = true
@@ -176,10 +176,10 @@ Definition oc_of (c : completion) (rt : N) : option outcome :=
 Lemma complete_tables s k oc : futs (complete s k oc) = futs s /\ rtypes (complete s k oc) = rtypes s
                                /\ next (complete s k oc) = next s /\ out (complete s k oc) = out s.
 Proof.
-  unfold complete. destruct (nget k (ofuts s)) as [o|]; [|auto].
+  unfold complete_with, xnone. destruct (nget k (ofuts s)) as [o|]; [|auto].
   destruct (is_pending (ost o)); [|auto].
   unfold run_callbacks. destruct oc; cbn [ost set_ost ocb]; [|auto].
-  destruct (ocb o) as [| |tok ucb]; [auto|auto|]. destruct ucb; auto.
+  destruct (ocb o) as [|kn|kn|tok ucb]; [auto|auto|auto|]. destruct ucb; auto.
 Qed.
 
 Lemma complete_ofuts_pending s k oc o :
@@ -191,24 +191,25 @@ Lemma complete_ofuts_pending s k oc o :
                            | OErr c m d => set_ost o (Failed (class_of_code c) c m d)
                            end) (ofuts s).
 Proof.
-  intros G P. unfold complete. rewrite G, P. unfold run_callbacks.
+  intros G P. unfold complete_with, xnone. rewrite G, P. unfold run_callbacks.
   destruct oc; cbn [ost set_ost ocb]; [|reflexivity].
-  destruct (ocb o) as [| |tok ucb]; cbn [cbflag ofuts set_ofuts register_token set_tokens].
+  destruct (ocb o) as [|kn|kn|tok ucb]; cbn [cbflag ofuts set_ofuts register_token set_tokens].
   - reflexivity.
   - rewrite aupd_aupd. reflexivity.
+  - reflexivity.
   - destruct ucb; cbn [ofuts set_ofuts register_token set_tokens]; [rewrite aupd_aupd|]; reflexivity.
 Qed.
 
 Lemma complete_ofuts_done s k oc o :
   nget k (ofuts s) = Some o -> is_pending (ost o) = false -> ofuts (complete s k oc) = ofuts s.
-Proof. intros G P. unfold complete. rewrite G, P. reflexivity. Qed.
+Proof. intros G P. unfold complete_with, xnone. rewrite G, P. reflexivity. Qed.
 
 Lemma handle_response_tables s i oc :
   rtypes (handle_response s i oc) = rtypes s /\ next (handle_response s i oc) = next s /\
   out (handle_response s i oc) = out s /\
   futs (handle_response s i oc) = adel id_eqb i (futs s).
 Proof.
-  unfold handle_response. destruct (iget i (futs s)) as [r|] eqn:G.
+  unfold handle_response_with. destruct (iget i (futs s)) as [r|] eqn:G.
   - destruct r as [k|]; cbn [hook futs rtypes next out set_futs].
     + destruct (complete_tables (set_futs s (adel id_eqb i (futs s))) k oc) as (A & B & C & D).
       rewrite A, B, C, D. auto.
@@ -278,7 +279,7 @@ Lemma handle_response_frame s s1 i oc e c :
                    end) ->
   ofuts (handle_response s1 i oc) = map (one_step e) (ofuts s).
 Proof.
-  intros I F1 O1 Rc Rid Ri Happ. unfold handle_response. rewrite F1.
+  intros I F1 O1 Rc Rid Ri Happ. unfold handle_response_with. rewrite F1.
   destruct (iget i (futs s)) as [r|] eqn:G.
   - destruct r as [k0|].
     + destruct (inv_futs s I i k0 G) as (o0 & G0 & E0).
@@ -312,9 +313,9 @@ Proof.
 Qed.
 
 (* ------------------------------------------------------------------ the frame lemma *)
-Definition new_ofut (s : st) (m rt : N) (cb : bool) (mid : option id) : nat * ofut :=
+Definition new_ofut (s : st) (m rt : N) (cb : cbkind) (mid : option id) : nat * ofut :=
   (length (ofuts s),
-   mkO (fst (send_id mid (next s))) m rt (if cb then CbUser else CbNone) Pending 0 WNone).
+   mkO (fst (send_id mid (next s))) m rt cb Pending 0 WNone).
 
 Lemma send_request_fields s m rt cb mid w :
   ofuts (send_request s m rt cb mid w)
@@ -338,7 +339,7 @@ Theorem resp_frame s e :
                      | _ => map (one_step e) (ofuts s)
                      end.
 Proof.
-  intros I OK. destruct e as [m rt cb mid|i p oks|i c m d|k0|i|i|i res|i]; cbn [step].
+  intros I OK. destruct e as [m rt cb mid|i p oks|i c m d|k0|i|i|i res|i]; cbn [step_with cancel_with xnone].
   - apply send_request_fields.
   - destruct (iget i (rtypes s)) as [rt|] eqn:R.
     + destruct (mem_n rt oks) eqn:M.
@@ -363,7 +364,7 @@ Proof.
     + intros k o. cbn [rel]. destruct (id_eqb i (oid o)); auto.
     + intros k o c' H. apply rel_error in H. apply H.
     + intros k o E. cbn [rel]. rewrite E, id_eqb_refl. reflexivity.
-  - unfold cancel_out. cbn [ofuts set_ofuts]. rewrite (aupd_as_map Nat.eqb). apply map_ext_in.
+  - unfold cancel_with, xnone, cancel_out. cbn [ofuts set_ofuts]. rewrite (aupd_as_map Nat.eqb). apply map_ext_in.
     intros [k o] _. unfold one_step, one. cbn [fst snd rel]. rewrite (Nat.eqb_sym k0 k).
     destruct (Nat.eqb k k0); destruct (is_pending (ost o)); reflexivity.
   - cbn [ofuts set_rtypes]. symmetry. apply map_one_id. intros. apply one_no_rel. reflexivity.
@@ -394,7 +395,7 @@ Lemma tables_shape s e i :
   (rtypes (step s e) = rtypes s \/ rtypes (step s e) = adel id_eqb i (rtypes s)).
 Proof.
   destruct e as [m rt cb mid|j p oks|j c m d|k0|j|j|j res|j]; cbn [ev_key]; try discriminate;
-    intros H; injection H as ->; cbn [step].
+    intros H; injection H as ->; cbn [step_with cancel_with xnone].
   - destruct (iget i (rtypes s)) as [rt|]; [|cbn [hook futs rtypes]; auto].
     destruct (mem_n rt oks); [|cbn [hook futs rtypes set_rtypes]; auto].
     destruct (handle_response_tables (set_rtypes s (adel id_eqb i (rtypes s))) i (ORes rt p))
@@ -411,7 +412,7 @@ Qed.
 Lemma step_next s e :
   next (step s e) = match e with UserSend _ _ _ mid => snd (send_id mid (next s)) | _ => next s end.
 Proof.
-  destruct e as [m rt cb mid|j p oks|j c m d|k0|j|j|j res|j]; cbn [step].
+  destruct e as [m rt cb mid|j p oks|j c m d|k0|j|j|j res|j]; cbn [step_with cancel_with xnone].
   - apply send_request_fields.
   - destruct (iget j (rtypes s)) as [rt|]; [|reflexivity]. destruct (mem_n rt oks); [|reflexivity].
     destruct (handle_response_tables (set_rtypes s (adel id_eqb j (rtypes s))) j (ORes rt p))
@@ -470,8 +471,8 @@ Qed.
 Theorem inv_step s e : Inv s -> ok_ev s e -> Inv (step s e).
 Proof.
   intros I OK. destruct (is_send e) eqn:S.
-  - destruct e as [m rt cb mid| | | | | | |]; try discriminate. cbn [step ok_ev] in *.
-    destruct (send_request_fields s m rt (if cb then CbUser else CbNone) mid WNone) as (A & B & C & _).
+  - destruct e as [m rt cb mid| | | | | | |]; try discriminate. cbn [step_with cancel_with xnone ok_ev] in *.
+    destruct (send_request_fields s m rt cb mid WNone) as (A & B & C & _).
     set (i := fst (send_id mid (next s))) in *. set (n := length (ofuts s)) in *.
     pose proof (inv_handles s I) as H. split.
     + rewrite A, map_app, app_length, H. cbn [map fst length]. fold n. rewrite Nat.add_1_r, seq_S.
@@ -480,7 +481,7 @@ Proof.
       rewrite B, C. destruct (Nat.eqb k n) eqn:E.
       * apply Nat.eqb_eq in E. subst k. injection G as <-. cbn [oid ort].
         rewrite !(aget_aset_eq id_eqb id_eqb_eq). auto.
-      * assert (N : i <> oid o) by (intros N; apply (OK k o G); symmetry; exact N).
+      * assert (N : i <> oid o) by (intros N; apply (OK k o G P); symmetry; exact N).
         rewrite !(aget_aset_neq id_eqb id_eqb_eq) by exact N. apply (inv_pending s I k o G P).
     + intros j k G. rewrite B in G. rewrite A. unfold n. rewrite (nget_app_new _ _ _ H). fold n.
       destruct (id_eq_dec i j) as [<-|N].
@@ -504,19 +505,35 @@ Proof.
         split; [apply (shape_get_neq _ _ i); assumption|apply (shape_get_neq_r _ _ i); assumption].
       * intros j k. apply (shape_get_sub _ _ i). exact TF.
     + destruct e as [m rt cb mid|j p oks|j c m d|k0|j|j|j res|j]; cbn [ev_key] in K; try discriminate.
-      apply (Inv_map s _ (UserCancelOut k0) I O'); cbn [step]; intros; auto.
+      apply (Inv_map s _ (UserCancelOut k0) I O'); cbn [step_with cancel_with xnone]; intros; auto.
 Qed.
 
 (* ------------------------------------------------------------------ hypotheses along a run *)
 Definition oid_rts (s : st) : list (id * N) := map (fun ko => (oid (snd ko), ort (snd ko))) (ofuts s).
 
-Record compat (s : st) (evs : list ev) : Prop := {
-  c_nodup : NoDup (map fst (oid_rts s) ++ sent_ids evs (next s));
+(* lv: the requests that are outstanding as far as the history says (Spec: wf_scan) *)
+Record compat_lv (s : st) (lv : list (id * nat * N)) (evs : list ev) : Prop := {
+  c_live : forall k o, nget k (ofuts s) = Some o -> is_pending (ost o) = true -> In (oid o, k, ort o) lv;
+  c_scan : wf_scan true true lv (next s) (length (ofuts s)) evs = true;
   c_disj : forall i, In i (in_ids evs) -> ~ In i (map fst (oid_rts s) ++ sent_ids evs (next s));
-  c_valid : forall i p oks, In (RecvResult i p oks) evs ->
-            forall rt, In (i, rt) (oid_rts s ++ sent evs (next s)) -> mem_n rt oks = true;
   c_codes : lsp_codes evs
 }.
+Definition compat (s : st) (evs : list ev) : Prop := exists lv, compat_lv s lv evs.
+
+Definition next_live (lv : list (id * nat * N)) (s : st) (e : ev) : list (id * nat * N) :=
+  match e with
+  | UserSend m rt cb mid => (fst (send_id mid (next s)), length (ofuts s), rt) :: lv
+  | RecvResult i _ _ | RecvError i _ _ _ => drop_id i lv
+  | UserCancelOut h => drop_handle h lv
+  | _ => lv
+  end.
+
+Lemma mem_id_in i l : mem_id i l = true <-> In i l.
+Proof.
+  unfold mem_id. rewrite existsb_exists. split.
+  - intros (x & H & E). apply id_eqb_eq in E. subst. exact H.
+  - intros H. exists i. split; [exact H|apply id_eqb_refl].
+Qed.
 
 Lemma in_oid_rts s k o : nget k (ofuts s) = Some o -> In (oid o, ort o) (oid_rts s).
 Proof.
@@ -540,11 +557,16 @@ Proof. destruct e; try discriminate; reflexivity. Qed.
 
 Lemma compat_head s e r : compat s (e :: r) -> ok_ev s e.
 Proof.
-  intros [ND DJ VA CO]. destruct e as [m rt cb mid|j p oks|j c m d|k0|j|j|j res|j]; cbn [ok_ev]; auto.
-  - intros k o G E. rewrite sent_ids_send in ND. apply NoDup_remove_2 in ND. apply ND.
-    apply in_or_app. left. rewrite <- E. eapply in_oids. exact G.
-  - intros k o G _ E. apply (VA j p oks); [left; reflexivity|]. apply in_or_app. left. rewrite <- E.
-    eapply in_oid_rts. exact G.
+  intros [lv [LV SC DJ CO]]. destruct e as [m rt cb mid|j p oks|j c m d|k0|j|j|j res|j]; cbn [ok_ev]; auto.
+  - intros k o G P E. cbn [wf_scan] in SC. destruct (send_id mid (next s)) as [i n'] eqn:S.
+    cbn [fst negb orb] in *. apply andb_true_iff in SC. destruct SC as [SC _].
+    apply negb_true_iff in SC. assert (X : mem_id i (live_ids lv) = true).
+    { apply mem_id_in. unfold live_ids. apply in_map_iff. exists (oid o, k, ort o). split; [exact E|].
+      apply LV; assumption. }
+    congruence.
+  - intros k o G P E. cbn [wf_scan negb orb] in SC. apply andb_true_iff in SC. destruct SC as [SC _].
+    rewrite forallb_forall in SC. specialize (SC _ (LV k o G P)). cbn [fst snd] in SC.
+    rewrite E, id_eqb_refl in SC. exact SC.
   - apply (CO j c m d). left. reflexivity.
   - intros k o G E. apply (DJ j); [left; reflexivity|]. apply in_or_app. left. rewrite <- E.
     eapply in_oids. exact G.
@@ -575,30 +597,61 @@ Qed.
 Lemma in_ids_cons e r i : In i (in_ids r) -> In i (in_ids (e :: r)).
 Proof. destruct e; cbn [in_ids In]; auto. Qed.
 
-Lemma compat_tail s e r : Inv s -> compat s (e :: r) -> compat (step s e) r.
+Lemma in_drop_id i lv x : In x lv -> fst (fst x) <> i -> In x (drop_id i lv).
 Proof.
-  intros I C. pose proof (compat_head s e r C) as OK. destruct C as [ND DJ VA CO].
+  intros H N. unfold drop_id. apply filter_In. split; [exact H|]. apply negb_true_iff, id_eqb_neq, N.
+Qed.
+
+Lemma in_drop_handle h lv (x : id * nat * N) : In x lv -> snd (fst x) <> h -> In x (drop_handle h lv).
+Proof.
+  intros H N. unfold drop_handle. apply filter_In. split; [exact H|]. apply negb_true_iff, Nat.eqb_neq, N.
+Qed.
+
+Lemma compat_lv_tail s lv e r :
+  Inv s -> compat_lv s lv (e :: r) -> compat_lv (step s e) (next_live lv s e) r.
+Proof.
+  intros I C. pose proof (compat_head s e r (ex_intro _ lv C)) as OK. destruct C as [LV SC DJ CO].
   assert (CO' : lsp_codes r) by (intros i c m d H; apply (CO i c m d); right; exact H).
   pose proof (oid_rts_step s e I OK) as OR. pose proof (step_next s e) as NX.
+  pose proof (resp_frame s e I OK) as O.
   destruct (is_send e) eqn:S.
-  - destruct e as [m rt cb mid| | | | | | |]; try discriminate. rewrite sent_ids_send in ND, DJ.
-    split; try rewrite OR; try rewrite NX.
-    + rewrite map_app, <- app_assoc. exact ND.
+  - destruct e as [m rt cb mid| | | | | | |]; try discriminate. rewrite sent_ids_send in DJ.
+    split; try rewrite OR; try rewrite NX; try rewrite O.
+    + intros k o G P. unfold new_ofut in G. rewrite (nget_app_new _ _ _ (inv_handles s I)) in G.
+      cbn [next_live]. destruct (Nat.eqb k (length (ofuts s))) eqn:E.
+      * apply Nat.eqb_eq in E. subst k. injection G as <-. left. reflexivity.
+      * right. apply LV; assumption.
+    + cbn [wf_scan] in SC. cbn [next_live]. destruct (send_id mid (next s)) as [i n']. cbn [fst snd] in *.
+      apply andb_true_iff in SC. rewrite app_length. cbn [length]. rewrite Nat.add_1_r. apply SC.
     + intros i Hi. rewrite map_app, <- app_assoc. apply DJ. apply in_ids_cons. exact Hi.
-    + intros i p oks Hin rt' Hrt. apply (VA i p oks); [right; exact Hin|].
-      rewrite sent_send. rewrite <- app_assoc in Hrt. exact Hrt.
     + exact CO'.
-  - assert (OR' : oid_rts (step s e) = oid_rts s) by (destruct e; try discriminate; exact OR).
+  - assert (O' : ofuts (step s e) = map (one_step e) (ofuts s)) by (destruct e; try discriminate; exact O).
+    assert (OR' : oid_rts (step s e) = oid_rts s) by (destruct e; try discriminate; exact OR).
     assert (NX' : next (step s e) = next s) by (destruct e; try discriminate; exact NX).
     assert (SI : sent_ids (e :: r) (next s) = sent_ids r (next s))
       by (unfold sent_ids; rewrite (sent_other e r _ S); reflexivity).
     split; try rewrite OR'; try rewrite NX'.
-    + rewrite <- SI. exact ND.
+    + intros k o' G P. rewrite O', nget_one_step in G.
+      destruct (nget k (ofuts s)) as [o|] eqn:G0; [|discriminate]. cbn [option_map] in G.
+      injection G as <-. destruct (one_pending_inv e k o P) as (P0 & R & E). rewrite E.
+      pose proof (LV k o G0 P0) as L.
+      destruct e as [m rt cb mid|j p oks|j c m d|k0|j|j|j res|j]; try (cbn in S; discriminate S);
+        cbn [next_live]; try exact L.
+      * apply in_drop_id; [exact L|]. cbn [fst]. cbn [rel] in R. intros EQ. rewrite EQ in R.
+        rewrite id_eqb_refl in R. discriminate.
+      * apply in_drop_id; [exact L|]. cbn [fst]. cbn [rel] in R. intros EQ. rewrite EQ in R.
+        rewrite id_eqb_refl in R. discriminate.
+      * apply in_drop_handle; [exact L|]. cbn [fst snd]. cbn [rel] in R. intros EQ. rewrite EQ in R.
+        rewrite Nat.eqb_refl in R. discriminate.
+    + rewrite O', map_length.
+      destruct e as [m rt cb mid|j p oks|j c m d|k0|j|j|j res|j]; try discriminate;
+        cbn [wf_scan next_live negb orb] in *; try exact SC; apply andb_true_iff in SC; apply SC.
     + intros i Hi. rewrite <- SI. apply DJ. apply in_ids_cons. exact Hi.
-    + intros i p oks Hin rt' Hrt. apply (VA i p oks); [right; exact Hin|].
-      rewrite (sent_other e r _ S). exact Hrt.
     + exact CO'.
 Qed.
+
+Lemma compat_tail s e r : Inv s -> compat s (e :: r) -> compat (step s e) r.
+Proof. intros I [lv C]. exists (next_live lv s e). apply compat_lv_tail; assumption. Qed.
 
 Theorem inv_run evs : forall s, Inv s -> compat s evs -> Inv (run_from s evs).
 Proof.
@@ -614,7 +667,7 @@ Fixpoint new_futs (evs : list ev) (next : N) (k : nat) : list (nat * ofut) :=
   match evs with
   | [] => []
   | UserSend m rt cb mid :: r =>
-    adv r (k, mkO (fst (send_id mid next)) m rt (if cb then CbUser else CbNone) Pending 0 WNone)
+    adv r (k, mkO (fst (send_id mid next)) m rt cb Pending 0 WNone)
       :: new_futs r (snd (send_id mid next)) (S k)
   | _ :: r => new_futs r next k
   end.
@@ -674,14 +727,31 @@ Proof.
   destruct e as [m rt cb mid| | | | | | |]; cbn [new_futs spec_futs map]; try apply IH.
   destruct (send_id mid n) as [i n'] eqn:S. cbn [fst snd]. rewrite IH, view_adv. f_equal.
   unfold advanced_view. cbn [ost is_pending ort ocb oid ocalls].
-  assert (F : cbflag (if cb then CbUser else CbNone) = cb) by (destruct cb; reflexivity).
-  rewrite F. destruct (outcome_view rt cb (first_rel i k r)). reflexivity.
+  destruct (outcome_view rt (cbflag cb) (first_rel i k r)). reflexivity.
+Qed.
+
+Lemma wf_scan_and evs : forall lv n k,
+  wf_scan true false lv n k evs = true -> wf_scan false true lv n k evs = true ->
+  wf_scan true true lv n k evs = true.
+Proof.
+  induction evs as [|e r IH]; intros lv n k A B; [reflexivity|].
+  destruct e as [m rt cb mid|j p oks|j c m d|k0|j|j|j res|j]; cbn [wf_scan negb orb] in *;
+    try (apply IH; assumption).
+  - destruct (send_id mid n) as [i n']. apply andb_true_iff in A. apply andb_true_iff in B.
+    apply andb_true_iff. split; [apply A|apply IH; [apply A|apply B]].
+  - apply andb_true_iff in B. apply andb_true_iff. split; [apply B|apply IH; [exact A|apply B]].
 Qed.
 
 Lemma compat_init evs :
   injective_supply evs -> disjoint_directions evs -> valid_results evs -> lsp_codes evs ->
   compat init evs.
-Proof. intros A B C D. split; cbn [oid_rts init ofuts map app next]; assumption. Qed.
+Proof.
+  intros A B C D. exists []. split; cbn [oid_rts init ofuts map app next length].
+  - intros k o G. discriminate.
+  - apply wf_scan_and; assumption.
+  - exact B.
+  - exact D.
+Qed.
 
 (* first_response_wins: under the hypotheses the futures of the model are the reference *)
 Theorem first_response_wins evs :
@@ -693,30 +763,15 @@ Proof.
 Qed.
 
 (* ------------------------------------------------------------------ the guard is the hypotheses *)
-Lemma mem_id_in i l : mem_id i l = true <-> In i l.
-Proof.
-  unfold mem_id. rewrite existsb_exists. split.
-  - intros (x & H & E). apply id_eqb_eq in E. subst. exact H.
-  - intros H. exists i. split; [exact H|apply id_eqb_refl].
-Qed.
-
-Lemma nodup_ids_sound l : nodup_ids l = true -> NoDup l.
-Proof.
-  induction l as [|i r IH]; cbn [nodup_ids]; [constructor|]. rewrite andb_true_iff, negb_true_iff.
-  intros [H1 H2]. constructor; [|apply IH, H2]. intros H. apply mem_id_in in H. congruence.
-Qed.
-
 Theorem guard_sound evs :
   guard evs = true ->
   injective_supply evs /\ disjoint_directions evs /\ valid_results evs /\ lsp_codes evs.
 Proof.
   unfold guard. rewrite !andb_true_iff. intros [[[A B] C] D]. repeat split.
-  - apply nodup_ids_sound, A.
+  - exact A.
   - intros i Hi Hs. unfold disjoint_directions_b in B. rewrite forallb_forall in B.
     specialize (B i Hi). apply negb_true_iff in B. apply mem_id_in in Hs. congruence.
-  - intros i p oks Hin rt Hrt. unfold valid_results_b in C. rewrite forallb_forall in C.
-    specialize (C _ Hin). cbn in C. rewrite forallb_forall in C. specialize (C _ Hrt).
-    cbn [fst snd] in C. rewrite id_eqb_refl in C. exact C.
+  - exact C.
   - intros i c m d Hin. unfold lsp_codes_b in D. rewrite forallb_forall in D. apply (D _ Hin).
 Qed.
 
@@ -798,7 +853,7 @@ Proof.
       * intros c' R. apply rel_result in R. apply R.
       * intros P E. apply (aget_of_in _ _ _ (inv_nodup s I)) in Hin. apply (H k o Hin P E).
     + cbn [ok_ev]. intros k o G P E. exfalso. apply (H k o G P E).
-  - intros c m d. destruct (int32 c) eqn:C32; [|cbn [step]; rewrite C32; reflexivity].
+  - intros c m d. destruct (int32 c) eqn:C32; [|cbn [step_with cancel_with xnone]; rewrite C32; reflexivity].
     rewrite (resp_frame s (RecvError i c m d) I C32).
     apply map_one_id. intros k o Hin. apply (one_resp_other _ i).
     + intros c' R. apply rel_error in R. apply R.
@@ -945,15 +1000,34 @@ Proof.
     rewrite !(first_rel_app_sends i k r _ S2), (first_rel_perm i k rs rs' P R ND). reflexivity.
 Qed.
 
+Lemma scan_ids_resp rs : forallb is_resp rs = true -> forall lv n k, wf_scan true false lv n k rs = true.
+Proof.
+  induction rs as [|e r IH]; intros R lv n k; [reflexivity|]. cbn [forallb] in R.
+  apply andb_true_iff in R. destruct R as [R1 R2].
+  destruct e; try discriminate; cbn [wf_scan negb orb andb]; apply IH, R2.
+Qed.
+
+Lemma scan_ids_sends a rs rs' :
+  forallb is_send a = true -> forallb is_resp rs = true -> forallb is_resp rs' = true ->
+  forall lv n k, wf_scan true false lv n k (a ++ rs) = wf_scan true false lv n k (a ++ rs').
+Proof.
+  intros SA R R'. induction a as [|e r IH]; intros lv n k.
+  - cbn [app]. rewrite !scan_ids_resp by assumption. reflexivity.
+  - cbn [forallb] in SA. apply andb_true_iff in SA. destruct SA as [S1 S2].
+    destruct e as [m rt cb mid| | | | | | |]; try discriminate. cbn [app wf_scan].
+    destruct (send_id mid n) as [i n']. rewrite (IH S2). reflexivity.
+Qed.
+
 (* the order of the replies is irrelevant: k outstanding requests, each answered at most once;
    every permutation of the replies leaves every future in the same final state *)
 Theorem reply_order_irrelevant sends rs rs' :
   forallb is_send sends = true -> forallb is_resp rs = true -> NoDup (map resp_id rs) ->
   Permutation rs rs' ->
-  injective_supply (sends ++ rs) -> valid_results (sends ++ rs) -> lsp_codes (sends ++ rs) ->
+  injective_supply (sends ++ rs) -> lsp_codes (sends ++ rs) ->
+  valid_results (sends ++ rs) -> valid_results (sends ++ rs') ->
   views (run (sends ++ rs)) = views (run (sends ++ rs')).
 Proof.
-  intros SA R ND P A C D.
+  intros SA R ND P A D C C'.
   assert (R' : forallb is_resp rs' = true).
   { apply forallb_forall. intros e He. rewrite forallb_forall in R. apply R.
     apply (Permutation_in e (Permutation_sym P) He). }
@@ -965,10 +1039,9 @@ Proof.
   rewrite first_response_wins; try assumption.
   - rewrite first_response_wins.
     + apply spec_futs_perm; assumption.
-    + unfold injective_supply, sent_ids in *. rewrite sent_app_resp in * by assumption. exact A.
+    + unfold injective_supply in *. rewrite <- (scan_ids_sends sends rs rs' SA R R'). exact A.
     + intros i Hi. rewrite in_ids_app, IS, (in_ids_resp rs' R') in Hi. destruct Hi.
-    + intros i p oks Hin rt Hrt. rewrite sent_app_resp in Hrt by assumption.
-      apply (C i p oks (PI _ Hin)). rewrite sent_app_resp by assumption. exact Hrt.
+    + exact C'.
     + intros i c m d Hin. apply (D i c m d (PI _ Hin)).
   - intros i Hi. rewrite in_ids_app, IS, (in_ids_resp rs R) in Hi. destruct Hi.
 Qed.
@@ -978,7 +1051,7 @@ Lemma rtypes_step_send s m rt cb mid i :
   iget i (rtypes (step s (UserSend m rt cb mid)))
   = if id_eqb (fst (send_id mid (next s))) i then Some rt else iget i (rtypes s).
 Proof.
-  cbn [step]. destruct (send_request_fields s m rt (if cb then CbUser else CbNone) mid WNone) as (_ & _ & C & _).
+  cbn [step_with cancel_with xnone]. destruct (send_request_fields s m rt cb mid WNone) as (_ & _ & C & _).
   rewrite C. destruct (id_eqb (fst (send_id mid (next s))) i) eqn:E.
   - apply id_eqb_eq in E. rewrite <- E. apply (aget_aset_eq id_eqb id_eqb_eq).
   - apply (aget_aset_neq id_eqb id_eqb_eq). intros H. rewrite H, id_eqb_refl in E. discriminate.
@@ -987,7 +1060,7 @@ Qed.
 Lemma rtypes_step_resp s e i : resp_is i e = true -> iget i (rtypes (step s e)) = None.
 Proof.
   destruct e as [m rt cb mid|j p oks|j c m d|k0|j|j|j res|j]; cbn [resp_is]; try discriminate;
-    intros E; apply id_eqb_eq in E; subst j; cbn [step].
+    intros E; apply id_eqb_eq in E; subst j; cbn [step_with cancel_with xnone].
   - destruct (iget i (rtypes s)) as [rt|] eqn:G; [|exact G].
     destruct (mem_n rt oks).
     + destruct (handle_response_tables (set_rtypes s (adel id_eqb i (rtypes s))) i (ORes rt p)) as (A & _).
@@ -1053,12 +1126,27 @@ Qed.
 Lemma adel_get_neq {V} (t : list (id * V)) j i : i <> j -> iget i (adel id_eqb j t) = iget i t.
 Proof. intros N. apply (aget_adel_neq id_eqb id_eqb_eq). congruence. Qed.
 
-Theorem K_step s e r : Inv s -> compat s (e :: r) -> K s -> K (step s e).
+(* the static form of valid_results, along a run *)
+Definition svalid (s : st) (evs : list ev) : Prop :=
+  forall i p oks, In (RecvResult i p oks) evs ->
+  forall rt, In (i, rt) (oid_rts s ++ sent evs (next s)) -> mem_n rt oks = true.
+
+Lemma svalid_tail s e r : Inv s -> ok_ev s e -> svalid s (e :: r) -> svalid (step s e) r.
 Proof.
-  intros I C H. pose proof (compat_head s e r C) as OK. pose proof (resp_frame s e I OK) as O.
+  intros I OK VA i p oks Hin rt' Hrt. apply (VA i p oks); [right; exact Hin|].
+  rewrite (oid_rts_step s e I OK), (step_next s e) in Hrt.
+  destruct (is_send e) eqn:S.
+  - destruct e as [m rt cb mid| | | | | | |]; try discriminate. rewrite sent_send.
+    rewrite <- app_assoc in Hrt. exact Hrt.
+  - rewrite (sent_other e r _ S). destruct e; try discriminate; exact Hrt.
+Qed.
+
+Theorem K_step s e r : Inv s -> compat s (e :: r) -> svalid s (e :: r) -> K s -> K (step s e).
+Proof.
+  intros I C SV H. pose proof (compat_head s e r C) as OK. pose proof (resp_frame s e I OK) as O.
   destruct e as [m rt cb mid|j p oks|j c m d|k0|j|j|j res|j].
   - (* send *)
-    cbn [step] in *. destruct (send_request_fields s m rt (if cb then CbUser else CbNone) mid WNone)
+    cbn [step_with cancel_with xnone] in *. destruct (send_request_fields s m rt cb mid WNone)
       as (A & B & D & _). set (i0 := fst (send_id mid (next s))) in *.
     intros i k G. rewrite B in G. rewrite A, D. rewrite (nget_app_new _ _ _ (inv_handles s I)).
     destruct (id_eq_dec i0 i) as [<-|N].
@@ -1072,7 +1160,7 @@ Proof.
       apply nget_in in G0. apply (in_map fst) in G0. rewrite (inv_handles s I) in G0.
       apply in_seq in G0. cbn [fst] in G0. lia.
   - (* result *)
-    apply (K_map s _ _ H O). cbn [step]. intros i k G.
+    apply (K_map s _ _ H O). cbn [step_with cancel_with xnone]. intros i k G.
     destruct (iget j (rtypes s)) as [rt|] eqn:R.
     + destruct (mem_n rt oks) eqn:M.
       * destruct (handle_response_tables (set_rtypes s (adel id_eqb j (rtypes s))) j (ORes rt p))
@@ -1082,37 +1170,38 @@ Proof.
         destruct (id_eq_dec i j) as [->|N]; [|apply adel_get_neq, N]. exfalso.
         destruct (H j k G) as (o & G0 & E & R'). rewrite R in R'. injection R' as ->.
         assert (X : mem_n (ort o) oks = true).
-        { apply (c_valid s _ C j p oks); [left; reflexivity|]. apply in_or_app. left. rewrite <- E.
+        { apply (SV j p oks); [left; reflexivity|]. apply in_or_app. left. rewrite <- E.
           eapply in_oid_rts. exact G0. }
         congruence.
     + cbn [hook futs rtypes] in *. auto.
   - (* error *)
-    apply (K_map s _ _ H O). cbn [step ok_ev] in *. rewrite OK. intros i k G.
+    apply (K_map s _ _ H O). cbn [step_with cancel_with xnone ok_ev] in *. rewrite OK. intros i k G.
     destruct (handle_response_tables (set_rtypes s (adel id_eqb j (rtypes s))) j (OErr c m d))
       as (A & _ & _ & B). rewrite A. rewrite B in G. cbn [futs rtypes set_rtypes] in *.
     apply adel_get_some in G. destruct G as [N G]. split; [exact G|apply adel_get_neq, N].
-  - apply (K_map s _ _ H O). cbn [step]. intros i k G. auto.
-  - apply (K_map s _ _ H O). cbn [step futs rtypes set_rtypes]. intros i k G. split; [exact G|].
+  - apply (K_map s _ _ H O). cbn [step_with cancel_with xnone]. intros i k G. auto.
+  - apply (K_map s _ _ H O). cbn [step_with cancel_with xnone futs rtypes set_rtypes]. intros i k G. split; [exact G|].
     apply adel_get_neq. intros ->. destruct (H j k G) as (o & G0 & E & _). apply (OK k o G0 E).
-  - apply (K_map s _ _ H O). cbn [step futs rtypes set_futs]. intros i k G.
+  - apply (K_map s _ _ H O). cbn [step_with cancel_with xnone futs rtypes set_futs]. intros i k G.
     destruct (id_eq_dec j i) as [->|N].
     + rewrite (aget_aset_eq id_eqb id_eqb_eq) in G. discriminate.
     + rewrite (aget_aset_neq id_eqb id_eqb_eq) in G by exact N. auto.
-  - apply (K_map s _ _ H O). cbn [step]. intros i k G.
+  - apply (K_map s _ _ H O). cbn [step_with cancel_with xnone]. intros i k G.
     destruct res; cbn [futs rtypes set_futs set_rtypes] in *; apply adel_get_some in G;
       destruct G as [N G]; split; try exact G; try reflexivity. apply adel_get_neq, N.
-  - apply (K_map s _ _ H O). cbn [step]. intros i k G.
+  - apply (K_map s _ _ H O). cbn [step_with cancel_with xnone]. intros i k G.
     destruct (iget j (futs s)) as [[k1|]|] eqn:F; cbn [futs rtypes set_futs cancel_out set_ofuts] in *.
     + apply adel_get_some in G. destruct G as [N G]. auto.
     + apply adel_get_some in G. destruct G as [N G]. auto.
     + auto.
 Qed.
 
-Theorem K_run evs : forall s, Inv s -> compat s evs -> K s -> K (run_from s evs).
+Theorem K_run evs : forall s, Inv s -> compat s evs -> svalid s evs -> K s -> K (run_from s evs).
 Proof.
-  induction evs as [|e r IH]; intros s I C H; [exact H|].
+  induction evs as [|e r IH]; intros s I C SV H; [exact H|].
   change (run_from s (e :: r)) with (run_from (step s e) r).
-  apply IH; [apply inv_step; [exact I|eapply compat_head; exact C]|apply compat_tail; assumption|
+  pose proof (compat_head s e r C) as OK.
+  apply IH; [apply inv_step; assumption|apply compat_tail; assumption|apply svalid_tail; assumption|
              eapply K_step; eassumption].
 Qed.
 
@@ -1124,8 +1213,8 @@ Definition noFIn (s : st) : Prop := forall i, iget i (futs s) <> Some FIn.
 Lemma noFIn_step s e :
   (match e with InAsyncReg _ => false | _ => true end) = true -> noFIn s -> noFIn (step s e).
 Proof.
-  intros NR H i. destruct e as [m rt cb mid|j p oks|j c m d|k0|j|j|j res|j]; try discriminate; cbn [step].
-  - destruct (send_request_fields s m rt (if cb then CbUser else CbNone) mid WNone) as (_ & B & _).
+  intros NR H i. destruct e as [m rt cb mid|j p oks|j c m d|k0|j|j|j res|j]; try discriminate; cbn [step_with cancel_with xnone].
+  - destruct (send_request_fields s m rt cb mid WNone) as (_ & B & _).
     rewrite B. destruct (id_eq_dec (fst (send_id mid (next s))) i) as [<-|N].
     + rewrite (aget_aset_eq id_eqb id_eqb_eq). discriminate.
     + rewrite (aget_aset_neq id_eqb id_eqb_eq) by exact N. apply H.
@@ -1158,12 +1247,12 @@ Qed.
    direction has registered nothing (its half is C16 over Model/Endpoint.v). *)
 Theorem C16_outgoing evs :
   injective_supply evs -> disjoint_directions evs -> valid_results evs -> lsp_codes evs ->
-  all_answered evs ->
+  strict_valid_results evs -> all_answered evs ->
   rtypes (run evs) = [] /\
   (forall i k, iget i (futs (run evs)) <> Some (FOut k)) /\
   (no_in_async evs = true -> futs (run evs) = []).
 Proof.
-  intros A B C D E. pose proof (compat_init evs A B C D) as CI.
+  intros A B C D SV E. pose proof (compat_init evs A B C D) as CI.
   assert (R : rtypes (run evs) = []).
   { apply (all_none_nil id_eqb id_eqb_eq). intros i.
     destruct (iget i (rtypes (run evs))) eqn:G; [|reflexivity]. exfalso.
@@ -1172,7 +1261,7 @@ Proof.
     - apply X. reflexivity.
     - unfold all_answered in E. cbn [init next] in X. rewrite E in X. exact X. }
   assert (F : forall i k, iget i (futs (run evs)) <> Some (FOut k)).
-  { intros i k G. destruct (K_run evs init inv_init CI K_init i k G) as (o & _ & _ & X).
+  { intros i k G. destruct (K_run evs init inv_init CI SV K_init i k G) as (o & _ & _ & X).
     fold (run evs) in X. rewrite R in X. discriminate. }
   repeat split; [exact R|exact F|]. intros NA. apply (all_none_nil id_eqb id_eqb_eq). intros i.
   destruct (iget i (futs (run evs))) as [[k|]|] eqn:G; [exfalso; apply (F i k G)| |reflexivity].
@@ -1182,7 +1271,7 @@ Qed.
 (* non-vacuity of C16_outgoing: three requests, answered by a result, an error with code 0 and
    empty message, and a result preceded by a duplicate-to-be; the caller cancelled one of them *)
 Example C16_outgoing_nonvacuous :
-  let evs := [UserSend 0 1 true None; UserSend 1 2 false (Some (IInt 7)); UserSend 6 0 true (Some (IStr [55%N]));
+  let evs := [UserSend 0 1 (CbUser KNone) None; UserSend 1 2 CbNone (Some (IInt 7)); UserSend 6 0 (CbUser KNone) (Some (IStr [55%N]));
               UserCancelOut 1; RecvResult (IInt 7) 0 [2%N]; RecvError (IStr [55%N]) 0 [] 3;
               RecvResult (IUuid 0) 5 [1%N]; RecvResult (IUuid 0) 0 [1%N]] in
   guard evs = true /\ all_answered evs /\ no_in_async evs = true /\
@@ -1193,23 +1282,23 @@ Proof. vm_compute. repeat split. Qed.
 (* Responses neither read nor write `out`: handling one commutes with the write. *)
 Lemma complete_set_out s k oc v : complete (set_out s v) k oc = set_out (complete s k oc) v.
 Proof.
-  unfold complete. cbn [ofuts set_out]. destruct (nget k (ofuts s)) as [o|]; [|reflexivity].
+  unfold complete_with, xnone. cbn [ofuts set_out]. destruct (nget k (ofuts s)) as [o|]; [|reflexivity].
   destruct (is_pending (ost o)); [|reflexivity]. unfold run_callbacks.
   destruct oc; cbn [ost set_ost ocb]; [|reflexivity].
-  destruct (ocb o) as [| |t u]; [reflexivity|reflexivity|]. destruct u; reflexivity.
+  destruct (ocb o) as [|kn|kn|t u]; [reflexivity|reflexivity|reflexivity|]. destruct u; reflexivity.
 Qed.
 
 Lemma handle_response_set_out s i oc v :
   handle_response (set_out s v) i oc = set_out (handle_response s i oc) v.
 Proof.
-  unfold handle_response. cbn [futs set_out]. destruct (iget i (futs s)) as [[k|]|]; try reflexivity.
+  unfold handle_response_with. cbn [futs set_out]. destruct (iget i (futs s)) as [[k|]|]; try reflexivity.
   rewrite <- complete_set_out. reflexivity.
 Qed.
 
 Lemma step_response_set_out s e v :
   is_resp e = true -> step (set_out s v) e = set_out (step s e) v.
 Proof.
-  destruct e as [m rt cb mid|j p oks|j c m d|k0|j|j|j res|j]; try discriminate; intros _; cbn [step].
+  destruct e as [m rt cb mid|j p oks|j c m d|k0|j|j|j res|j]; try discriminate; intros _; cbn [step_with cancel_with xnone].
   - cbn [rtypes set_out]. destruct (iget j (rtypes s)) as [rt|]; [|reflexivity].
     destruct (mem_n rt oks); [|reflexivity]. rewrite <- handle_response_set_out. reflexivity.
   - destruct (int32 c); [|reflexivity]. rewrite <- handle_response_set_out. reflexivity.
@@ -1217,7 +1306,7 @@ Qed.
 
 Lemma step_response_out s e : is_resp e = true -> out (step s e) = out s.
 Proof.
-  destruct e as [m rt cb mid|j p oks|j c m d|k0|j|j|j res|j]; try discriminate; intros _; cbn [step].
+  destruct e as [m rt cb mid|j p oks|j c m d|k0|j|j|j res|j]; try discriminate; intros _; cbn [step_with cancel_with xnone].
   - destruct (iget j (rtypes s)) as [rt|]; [|reflexivity]. destruct (mem_n rt oks); [|reflexivity].
     destruct (handle_response_tables (set_rtypes s (adel id_eqb j (rtypes s))) j (ORes rt p))
       as (_ & _ & A & _). exact A.
@@ -1247,3 +1336,161 @@ Theorem registered_before_write s m rt cb mid w :
 Proof.
   destruct mid; cbn; rewrite !(aget_aset_eq id_eqb id_eqb_eq); repeat split.
 Qed.
+
+(* ------------------------------------------------------------------ re-entrant callbacks *)
+(* User code runs INSIDE set_result / set_exception / cancel (Model: the parameter X of step_with).
+   At HEAD that point is after `_request_futures.pop(msg_id)` and nothing follows it in the
+   handling of the frame.  Hence: what the user code does - cancel other futures, send follow-up
+   requests, possibly with the id that has just been answered - is exactly as if it had been done
+   right AFTER the event: the re-entrant machine is the primitive machine on the flattened trace. *)
+
+(* the user code an event sets off, read off the state it meets (the code path of step_with) *)
+Definition trig_cancel (s : st) (k : nat) : option (bool * kont) :=
+  match nget k (ofuts s) with
+  | Some o => if is_pending (ost o) then kont_of (set_ost o Cancelled) else None
+  | None => None
+  end.
+
+Definition trig_complete (s : st) (k : nat) (oc : outcome) : option (bool * kont) :=
+  match nget k (ofuts s) with
+  | Some o =>
+    if is_pending (ost o)
+    then kont_of (set_ost o (match oc with
+                             | ORes rt p => Resolved rt p
+                             | OErr c m d => Failed (class_of_code c) c m d
+                             end))
+    else None
+  | None => None
+  end.
+
+Definition trig_hr (s : st) (i : id) (oc : outcome) : option (bool * kont) :=
+  match iget i (futs s) with Some (FOut k) => trig_complete s k oc | _ => None end.
+
+Definition trig (s : st) (e : ev) : option (bool * kont) :=
+  match e with
+  | RecvResult i p oks =>
+    match iget i (rtypes s) with
+    | Some rt => if mem_n rt oks then trig_hr s i (ORes rt p) else None
+    | None => None
+    end
+  | RecvError i c m d => if int32 c then trig_hr s i (OErr c m d) else None
+  | UserCancelOut k => trig_cancel s k
+  | InCancel i => match iget i (futs s) with Some (FOut k) => trig_cancel s k | _ => None end
+  | _ => None
+  end.
+
+Section Trig.
+  Variable X : st -> option (bool * kont) -> st.
+  Hypothesis X_none : forall s, X s None = s.
+
+  Lemma complete_with_trig s k oc : complete_with X s k oc = X (complete s k oc) (trig_complete s k oc).
+  Proof.
+    unfold complete_with, trig_complete, xnone. destruct (nget k (ofuts s)) as [o|]; [|rewrite X_none; reflexivity].
+    destruct (is_pending (ost o)); [reflexivity|rewrite X_none; reflexivity].
+  Qed.
+
+  Lemma handle_response_with_trig s i oc :
+    handle_response_with X s i oc = X (handle_response s i oc) (trig_hr s i oc).
+  Proof.
+    unfold handle_response_with, trig_hr. destruct (iget i (futs s)) as [[k|]|]; try (rewrite X_none; reflexivity).
+    rewrite complete_with_trig. reflexivity.
+  Qed.
+
+  Lemma cancel_with_trig s k : cancel_with X s k = X (cancel_with xnone s k) (trig_cancel s k).
+  Proof. reflexivity. Qed.
+
+  Lemma step_with_trig s e : step_with X s e = X (step s e) (trig s e).
+  Proof.
+    destruct e as [m rt cb mid|j p oks|j c m d|k0|j|j|j res|j]; cbn [step_with trig];
+      try (rewrite X_none; reflexivity).
+    - destruct (iget j (rtypes s)) as [rt|]; [|rewrite X_none; reflexivity].
+      destruct (mem_n rt oks); [|rewrite X_none; reflexivity]. rewrite handle_response_with_trig. reflexivity.
+    - destruct (int32 c); [|rewrite X_none; reflexivity]. rewrite handle_response_with_trig. reflexivity.
+    - apply cancel_with_trig.
+    - destruct (iget j (futs s)) as [[k|]|]; try (rewrite X_none; reflexivity).
+      change (trig_cancel s k) with (trig_cancel (set_futs s (adel id_eqb j (futs s))) k).
+      apply cancel_with_trig.
+  Qed.
+End Trig.
+
+Lemma xrun_none f s : xrun f s None = s.
+Proof. reflexivity. Qed.
+
+(* the primitive events user code performs *)
+Fixpoint flat_exec (f : nat) (s : st) (dk : bool) (kn : kont) : list ev :=
+  match f with
+  | O => []
+  | S f' =>
+    match kn with
+    | KNone => []
+    | KSend m rt mid k' => [UserSend m rt (if dk then CbDone k' else CbUser k') mid]
+    | KCancel h k' =>
+      UserCancelOut h
+      :: match trig s (UserCancelOut h) with
+         | Some (d, kh) => flat_exec f' (step s (UserCancelOut h)) d kh
+         | None => []
+         end
+      ++ flat_exec f' (cancel_with (xrun f') s h) dk k'
+    end
+  end.
+
+Lemma exec_flat f : forall s dk kn, execf f s dk kn = fold_left step (flat_exec f s dk kn) s.
+Proof.
+  induction f as [|f IH]; intros s dk kn; [reflexivity|]. destruct kn as [|h k'|m rt mid k']; cbn [execf flat_exec].
+  - reflexivity.
+  - change (fun (s0 : st) (x : option (bool * kont)) =>
+              match x with Some (d, kh) => execf f s0 d kh | None => s0 end) with (xrun f).
+    cbn [fold_left]. rewrite fold_left_app. rewrite IH. f_equal.
+    change (cancel_with (xrun f) s h) with (step_with (xrun f) s (UserCancelOut h)).
+    rewrite (step_with_trig (xrun f) (xrun_none f)).
+    destruct (trig s (UserCancelOut h)) as [[d kh]|]; cbn [xrun fold_left]; [apply IH|reflexivity].
+  - reflexivity.
+Qed.
+
+Definition flat (s : st) (e : ev) : list ev :=
+  e :: match trig s e with
+       | Some (d, kn) => flat_exec (fuel_for s e) (step s e) d kn
+       | None => []
+       end.
+
+(* one event of the re-entrant machine = the event, then what the user code did, one by one *)
+Theorem rstep_flat s e : rstep s e = fold_left step (flat s e) s.
+Proof.
+  unfold rstep, flat. rewrite (step_with_trig (xrun (fuel_for s e)) (xrun_none _)). cbn [fold_left].
+  destruct (trig s e) as [[d kn]|]; cbn [xrun fold_left]; [apply exec_flat|reflexivity].
+Qed.
+
+(* the primitive trace of a history with re-entrant callbacks *)
+Fixpoint flat_run (s : st) (evs : list ev) : list ev :=
+  match evs with
+  | [] => []
+  | e :: r => flat s e ++ flat_run (rstep s e) r
+  end.
+
+Theorem rrun_flat evs : forall s, rrun_from s evs = run_from s (flat_run s evs).
+Proof.
+  induction evs as [|e r IH]; intros s; [reflexivity|]. cbn [rrun_from fold_left flat_run].
+  unfold run_from. rewrite fold_left_app, <- rstep_flat. apply IH.
+Qed.
+
+Definition rtrace (evs : list ev) : list ev := flat_run init evs.
+
+(* first response wins, with re-entrant user code: a request re-sent from a callback - also with
+   the id that has just been answered - is a NEW request whose outstanding interval starts inside
+   the callback; every generation of a polled id completes with ITS reply *)
+Theorem reentrant_first_response_wins evs :
+  guard (rtrace evs) = true -> views (rrun evs) = spec (rtrace evs).
+Proof.
+  intros G. unfold rrun. rewrite rrun_flat. apply reference_agrees, G.
+Qed.
+
+Example reentrant_poll :
+  let poll := KSend 0 1 (Some (IInt 7)) (KSend 0 1 (Some (IInt 7)) KNone) in
+  let evs := [UserSend 0 1 (CbUser poll) (Some (IInt 7)); UserSend 1 2 (CbDone (KCancel 0 (KSend 6 0 None KNone))) None;
+              RecvResult (IInt 7) 5 [1%N]; RecvError (IUuid 0) 0 [] 0; RecvResult (IInt 7) 0 [1%N];
+              RecvError (IInt 7) 1 [] 0; RecvResult (IUuid 1) 3 [0%N]] in
+  guard (rtrace evs) = true /\
+  views (rrun evs) = [(Resolved 1 5, 1%N); (Failed EBase 0 [] 0, 0%N); (Resolved 1 0, 1%N);
+                      (Resolved 0 3, 0%N); (Failed EBase 1 [] 0, 0%N)] /\
+  futs (rrun evs) = [] /\ rtypes (rrun evs) = [] /\ length (rtrace evs) = 11.
+Proof. vm_compute. repeat split. Qed.
